@@ -114,6 +114,37 @@ def run(tier):
         rep.violation("dedup-layout", "real block processor with colliding checksums (%d workers, backlog %d): %s for the collision chain %s"
                       % (W, e["mb"], what, json.dumps([f["blocks"] for f in e["input"]])), artefact=p, data={"input": e["input"], "predicted": exp, "real": got})
 
+    # ---- fragment blocks on disk, raw and compressed, looked up in every order: the block cache behind the byte comparison -------
+    #      two fragment blocks are filled and flushed (one of compressible tails a/c, one of incompressible tails d/e, either order),
+    #      a third one pushes the second out to disk, then two more tails repeat earlier ones (every ordered pair)
+    fam = []
+    T = lambda c: {"flags": [], "blocks": [], "tail": [{"c": c, "n": 2}]}
+    for first, second in ((("a", "c"), ("d", "e")), (("d", "e"), ("a", "c"))):
+        for filler in (("c", "e"), ("e", "c")):
+            for x in "acde":
+                for y in "acde":
+                    fam.append([T(first[0]), T(first[1]), T(second[0]), T(second[1]), T(filler[0] + ""), T(x), T(y)])
+    fcfg = work + "/fragfam.cfg"
+    fa = dict(nf=7, mb=0, ids=["z", "a", "c", "d", "e"], backlogs=(3,), flagsets=[[]], tails=(2,), explicit=fam)
+    bpbind.cfg_for(fcfg, invariants=PROPS, **fa)
+    r = run_tlc("BlockProc", fcfg, workers=8, timeout=1200, heap="12g")
+    ev.tlc(r, "BlockProc fragment-block family (%d inputs)" % len(fam))
+    if not r["ok"]:
+        print("MODEL-FAILURE: BlockProc (fragment family) violates %s" % r["violated"])
+        ev.write()
+        return 2
+    bpbind.cfg_for(fcfg, emit=True, invariants=PROPS, **fa)
+    r = run_tlc("BlockProc", fcfg, workers=8, timeout=1200, heap="12g")
+    em = bpbind.parse_emitted(r["out"])
+    ev.set("fragment_family_inputs", len(em))
+    n, bad = bpbind.replay(binp, work, em, workers=(1, 3), tag="c08_frag")
+    total += n
+    for (e, W, what, exp, got) in bad[:3]:
+        p = work + "/viol_frag_%d.txt" % W
+        bpbind.input_file(p, e["input"], e["mb"], W)
+        rep.violation("dedup-layout", "real block processor with colliding checksums (%d workers, backlog %d): %s for the tails %s"
+                      % (W, e["mb"], what, [f["tail"][0]["c"] for f in e["input"]]), artefact=p, data={"input": e["input"], "predicted": exp, "real": got})
+
     # ---- tool level: truncated checksums, read everything back -----------------------------------
     reader = build.build("plain") + "/bin"
     runs = 0
